@@ -312,6 +312,20 @@ int main(void) {
         } else if (!strcmp(t[0], "cancel") && n == 2 && s_task(t[1]) >= 0) {
             do_cancel(s_task(t[1]));
             s_report();
+        } else if (!strcmp(t[0], "stale_link") && n == 2 && s_task(t[1]) >= 0) {
+            /* leave STALE links in the task's list node, as a caller-owned hand-off list does (thread_scheduler.c): link
+             * the node into a scratch list, then re-initialise the list without popping.  Only for a task that is not
+             * pending.  Nothing of the scheduler's state changes. */
+            static struct aws_linked_list scratch;
+            int tk = s_task(t[1]);
+            if ((size_t)tk >= s_nt || s_tasks[tk].task.abi_extension.scheduled) {
+                ++s_skipped;
+            } else {
+                aws_linked_list_init(&scratch);
+                aws_linked_list_push_back(&scratch, &s_tasks[tk].task.node);
+                aws_linked_list_init(&scratch);
+            }
+            s_report();
         } else if (!strcmp(t[0], "cancel_raw") && n == 2 && s_task(t[1]) >= 0) {
             /* aws_task_scheduler_cancel_task without the wrapper's "is pending" guard: the task may never have been
              * scheduled, have run already or have been cancelled already */
